@@ -1,11 +1,13 @@
 /-
-  C09 helper lemmas for the micro-step model of `_timer`: from which program points the coroutine
-  suspends or returns within a few non-suspending steps, and where it never does.
+  C09 helper lemmas for the micro-step model of `_timer` (the current tree: the after-run idle loop is
+  guarded by the stopper; a series that has failed for good is not reset and its "run" may not suspend):
+  from every program point the coroutine suspends or returns within a few non-suspending steps.
+  The last section is HISTORICAL: the spin set of the unguarded loop (the code before /repo 6ccf081).
 -/
 import Kopf.Model.C09_Daemons
 namespace Kopf.C09
 
-variable (c : TCfg) (e : TEnv) (o : Bool × Tick)
+variable (c : TCfg) (e : TEnv) (o : Outcome)
 
 theorem settles_succ : ∀ (k : Nat) (l : TLoc), settles c e o k l = true → settles c e o (k + 1) l = true
   | 0, l, h => by simp [settles] at h
@@ -25,7 +27,6 @@ theorem settles_le {k k' : Nat} (hk : k ≤ k') (l : TLoc) (h : settles c e o k 
   | refl => exact h
   | step _ ih => exact settles_succ c e o _ l ih
 
-/-- one non-suspending step, then `k` more suffice -/
 theorem settles_cont {k : Nat} {l l' : TLoc} (ht : tstep c e o l = .cont l') (h : settles c e o k l' = true) :
     settles c e o (k + 1) l = true := by
   unfold settles; rw [ht]; exact h
@@ -36,127 +37,198 @@ theorem settles_susp {l l' : TLoc} (ht : tstep c e o l = .susp l') : settles c e
 theorem settles_exit {l : TLoc} {b : Bool} (ht : tstep c e o l = .exit b) : settles c e o 1 l = true := by
   unfold settles; rw [ht]
 
-theorem settles_invoke (l : TLoc) (h : l.pc = .invoke) : settles c e o 1 l = true := by
-  apply settles_susp (l' := { l with pc := .post, started := e.now, done := o.1, errDelay := o.2 })
-  simp [tstep, h]
-
 theorem settles_head_stop (l : TLoc) (h : l.pc = .head) (hs : e.stop = true) : settles c e o 1 l = true := by
   apply settles_exit (b := false)
   simp [tstep, h, hs]
 
-theorem settles_idleDone (l : TLoc) (h : l.pc = .idleDone) : settles c e o 2 l = true := by
+/-- a positive sleep with the stopper unset is a real one -/
+theorem sleepTo_susp {d : Tick} (hd : 0 < d) (hs : e.stop = false) (l : TLoc) : sleepTo d e l = .susp l := by
+  simp [sleepTo, sleepSuspends, hd, hs]
+
+/-- the idle wait before a run, when it has to wait -/
+theorem settles_idleHead_wait (l : TLoc) (h : l.pc = .idleHead) {idle : Tick} (hi : c.idle = some idle)
+    (hs : e.stop = false) (hlt : e.now - e.idleReset < idle) : settles c e o 1 l = true := by
+  apply settles_susp (l' := l)
+  have hpos : e.now < e.idleReset + idle := by unfold Tick at *; omega
+  simp [tstep, h, hi, hs, hlt, sleepTo, sleepSuspends, hpos]
+
+/-- After the "run" of a series that has failed for good (it did not suspend: `started = now`). -/
+theorem settles_after_failed (hg : c.guarded = true) (hidle : ∀ d, c.idle = some d → 0 < d)
+    (hint : ∀ v, c.interval = some v → 0 < v) (l : TLoc) (h : l.pc = .post) (hd : l.done = true)
+    (hst : l.started = e.now) : settles c e o 4 l = true := by
   cases hs : e.stop with
   | true =>
+    -- whatever sleep comes, it returns at once; then the loop head returns
+    cases hv : c.interval with
+    | some v =>
+      apply settles_le c e o (k := 2) (by omega)
+      apply settles_cont (l' := { l with pc := .head })
+      · cases hsh : c.sharp <;> simp [tstep, h, hd, hv, hsh, sleepTo, sleepSuspends, hs]
+      · exact settles_head_stop c e o _ rfl hs
+    | none =>
+      cases hi : c.idle with
+      | none =>
+        apply settles_le c e o (k := 1) (by omega)
+        apply settles_exit (b := true)
+        simp [tstep, h, hd, hv, hi]
+      | some idle =>
+        apply settles_le c e o (k := 3) (by omega)
+        apply settles_cont (l' := { l with pc := .idleLoop })
+        · simp [tstep, h, hd, hv, hi]
+        · apply settles_cont (l' := { l with pc := .head })
+          · simp [tstep, hi, hg, hs]
+          · exact settles_head_stop c e o _ rfl hs
+  | false =>
+    cases hv : c.interval with
+    | some v =>
+      have hvp := hint v hv
+      apply settles_le c e o (k := 1) (by omega)
+      apply settles_susp (l' := { l with pc := .head })
+      cases hsh : c.sharp with
+      | false => simp [tstep, h, hd, hv, hsh, sleepTo_susp e hvp hs]
+      | true =>
+        have hz : v - (e.now - l.started) % v = v := by
+          rw [hst]
+          have : e.now - e.now = (0 : Int) := Int.sub_self _
+          rw [this]
+          simp
+        simp [tstep, h, hd, hv, hsh, hz, sleepTo_susp e hvp hs]
+    | none =>
+      cases hi : c.idle with
+      | none =>
+        apply settles_le c e o (k := 1) (by omega)
+        apply settles_exit (b := true)
+        simp [tstep, h, hd, hv, hi]
+      | some idle =>
+        have hip := hidle idle hi
+        apply settles_cont (l' := { l with pc := .idleLoop })
+        · simp [tstep, h, hd, hv, hi]
+        · by_cases hle : e.idleReset ≤ e.now
+          · -- nothing changed since this "run": the guarded loop sleeps for real
+            apply settles_le c e o (k := 1) (by omega)
+            apply settles_susp (l' := { l with pc := .idleLoop })
+            simp [tstep, hi, hg, hs, hst, hle, sleepTo_susp e hip hs]
+          · apply settles_cont (l' := { l with pc := .head })
+            · simp [tstep, hi, hg, hs, hst, hle]
+            · apply settles_cont (l' := { (if (l.done && !l.failed) = true then { l with pc := .head, done := false }
+                                           else { l with pc := .head }) with pc := .idleHead })
+              · simp [tstep, hs, hi]
+              · apply settles_idleHead_wait c e o _ rfl hi hs
+                unfold Tick at *
+                omega
+
+theorem settles_invoke (hg : c.guarded = true) (hidle : ∀ d, c.idle = some d → 0 < d)
+    (hint : ∀ v, c.interval = some v → 0 < v) (l : TLoc) (h : l.pc = .invoke) : settles c e o 5 l = true := by
+  by_cases hf : (l.done && l.failed) = true
+  · apply settles_cont (l' := { l with pc := .post, started := e.now })
+    · simp [tstep, h, hf]
+    · simp only [Bool.and_eq_true] at hf
+      exact settles_after_failed c e o hg hidle hint _ rfl hf.1 rfl
+  · apply settles_le c e o (k := 1) (by omega)
+    apply settles_susp (l' := { l with pc := .post, started := e.now, done := o.done, failed := o.failed, errDelay := o.errDelay })
+    simp [tstep, h, hf]
+
+section
+variable (hg : c.guarded = true) (hidle : ∀ d, c.idle = some d → 0 < d) (hint : ∀ v, c.interval = some v → 0 < v)
+include hg hidle hint
+
+theorem settles_idleDone (l : TLoc) (h : l.pc = .idleDone) : settles c e o 6 l = true := by
+  cases hs : e.stop with
+  | true =>
+    apply settles_le c e o (k := 2) (by omega)
     apply settles_cont (l' := { l with pc := .head })
     · simp [tstep, h, hs]
     · exact settles_head_stop c e o _ rfl hs
   | false =>
     apply settles_cont (l' := { l with pc := .invoke })
     · simp [tstep, h, hs]
-    · exact settles_invoke c e o _ rfl
+    · exact settles_invoke c e o hg hidle hint _ rfl
 
-theorem settles_idleHead (l : TLoc) (h : l.pc = .idleHead) : settles c e o 3 l = true := by
+theorem settles_idleHead (l : TLoc) (h : l.pc = .idleHead) : settles c e o 7 l = true := by
   cases hi : c.idle with
   | none =>
-    apply settles_le c e o (k := 2) (by omega)
+    apply settles_le c e o (k := 6) (by omega)
     apply settles_cont (l' := { l with pc := .invoke })
     · simp [tstep, h, hi]
-    · exact settles_invoke c e o _ rfl
+    · exact settles_invoke c e o hg hidle hint _ rfl
   | some idle =>
     by_cases hc : (!e.stop && decide (e.now - e.idleReset < idle)) = true
-    · -- the sleep is real: the stopper is not set and the delay is positive
-      apply settles_le c e o (k := 1) (by omega)
-      simp only [Bool.and_eq_true, Bool.not_eq_true', decide_eq_true_eq] at hc
-      apply settles_susp (l' := l)
-      have hpos : e.now < e.idleReset + idle := by
-        have := hc.2
-        unfold Tick at *
-        omega
-      simp [tstep, h, hi, hc.1, hc.2, sleepTo, sleepSuspends, hpos]
+    · simp only [Bool.and_eq_true, Bool.not_eq_true', decide_eq_true_eq] at hc
+      exact settles_le c e o (k := 1) (by omega) l (settles_idleHead_wait c e o l h hi hc.1 hc.2)
     · apply settles_cont (l' := { l with pc := .idleDone })
       · simp only [tstep, h, hi]
         simp only [hc]
         simp
-      · exact settles_idleDone c e o _ rfl
+      · exact settles_idleDone c e o hg hidle hint _ rfl
 
-theorem settles_head (l : TLoc) (h : l.pc = .head) : settles c e o 4 l = true := by
+theorem settles_head (l : TLoc) (h : l.pc = .head) : settles c e o 8 l = true := by
   cases hs : e.stop with
   | true => exact settles_le c e o (k := 1) (by omega) l (settles_head_stop c e o l h hs)
   | false =>
     cases hi : c.idle with
     | none =>
-      apply settles_le c e o (k := 2) (by omega)
-      apply settles_cont (l' := { l with pc := .invoke })
+      apply settles_le c e o (k := 6) (by omega)
+      apply settles_cont (l' := { (if (l.done && !l.failed) = true then { l with done := false } else l) with pc := .invoke })
       · simp [tstep, h, hs, hi]
-      · exact settles_invoke c e o _ rfl
+      · exact settles_invoke c e o hg hidle hint _ rfl
     | some idle =>
-      apply settles_cont (l' := { l with pc := .idleHead })
+      apply settles_cont (l' := { (if (l.done && !l.failed) = true then { l with done := false } else l) with pc := .idleHead })
       · simp [tstep, h, hs, hi]
-      · exact settles_idleHead c e o _ rfl
+      · exact settles_idleHead c e o hg hidle hint _ rfl
 
 /-- any sleep that leads back to the loop head -/
 theorem settles_sleep_head (d : Tick) (l l0 : TLoc) (ht : tstep c e o l0 = sleepTo d e { l with pc := .head }) :
-    settles c e o 5 l0 = true := by
+    settles c e o 9 l0 = true := by
   unfold sleepTo at ht
   split at ht
   · exact settles_le c e o (k := 1) (by omega) l0 (settles_susp c e o ht)
-  · exact settles_cont c e o ht (settles_head c e o _ rfl)
+  · exact settles_cont c e o ht (settles_head c e o hg hidle hint _ rfl)
 
-theorem settles_init (l : TLoc) (h : l.pc = .init) : settles c e o 5 l = true := by
+theorem settles_init (l : TLoc) (h : l.pc = .init) : settles c e o 9 l = true := by
   cases hd : c.initialDelay with
   | none =>
     apply settles_cont (l' := { l with pc := .head })
     · simp [tstep, h, hd]
-    · exact settles_head c e o _ rfl
+    · exact settles_head c e o hg hidle hint _ rfl
   | some d =>
-    apply settles_sleep_head c e o d l l
+    apply settles_sleep_head c e o hg hidle hint d l l
     simp [tstep, h, hd]
 
-theorem settles_idleLoop (hpos : ∀ d, c.idle = some d → 0 < d) (l : TLoc) (h : l.pc = .idleLoop)
-    (hns : spinning c e l = false) : settles c e o 5 l = true := by
+theorem settles_idleLoop (l : TLoc) (h : l.pc = .idleLoop) : settles c e o 9 l = true := by
   cases hi : c.idle with
   | none =>
     apply settles_cont (l' := { l with pc := .head })
     · simp [tstep, h, hi]
-    · exact settles_head c e o _ rfl
+    · exact settles_head c e o hg hidle hint _ rfl
   | some idle =>
-    by_cases hc : (decide (e.idleReset ≤ l.started) && (!c.guarded || !e.stop)) = true
-    · -- the loop condition holds: the sleep must be a real one
-      have hstop : e.stop = false := by
-        cases hs : e.stop with
-        | false => rfl
-        | true =>
-          simp only [hs, Bool.not_true, Bool.or_false, Bool.and_eq_true, decide_eq_true_eq, Bool.not_eq_true'] at hc
-          simp [spinning, hi, hs, h, hc.1, hc.2] at hns
+    by_cases hc : (decide (e.idleReset ≤ l.started) && !e.stop) = true
+    · -- the loop condition holds, so the stopper is not set: the sleep is a real one
+      simp only [Bool.and_eq_true, decide_eq_true_eq, Bool.not_eq_true'] at hc
       apply settles_le c e o (k := 1) (by omega)
       apply settles_susp (l' := l)
-      have := hpos idle hi
-      simp only [tstep, h, hi]
-      simp only [hc, if_true]
-      simp [sleepTo, sleepSuspends, this, hstop]
+      simp [tstep, h, hi, hg, hc.1, hc.2, sleepTo_susp e (hidle idle hi) hc.2]
     · apply settles_cont (l' := { l with pc := .head })
-      · simp only [tstep, h, hi]
-        simp only [hc]
+      · simp only [tstep, h, hi, hg]
+        simp only [Bool.not_true, Bool.false_or, hc]
         simp
-      · exact settles_head c e o _ rfl
+      · exact settles_head c e o hg hidle hint _ rfl
 
-theorem settles_post (hpos : ∀ d, c.idle = some d → 0 < d) (l : TLoc) (h : l.pc = .post)
-    (hns : spinning c e l = false) : settles c e o 6 l = true := by
+theorem settles_post (l : TLoc) (h : l.pc = .post) : settles c e o 10 l = true := by
   cases hd : l.done with
   | false =>
-    apply settles_le c e o (k := 5) (by omega)
-    apply settles_sleep_head c e o l.errDelay l l
+    apply settles_le c e o (k := 9) (by omega)
+    apply settles_sleep_head c e o hg hidle hint l.errDelay l l
     simp [tstep, h, hd]
   | true =>
     cases hv : c.interval with
     | some v =>
-      apply settles_le c e o (k := 5) (by omega)
+      apply settles_le c e o (k := 9) (by omega)
       cases hsh : c.sharp with
       | true =>
-        apply settles_sleep_head c e o (v - ((e.now - l.started) % v)) l l
+        apply settles_sleep_head c e o hg hidle hint (v - ((e.now - l.started) % v)) l l
         simp [tstep, h, hd, hv, hsh]
       | false =>
-        apply settles_sleep_head c e o v l l
+        apply settles_sleep_head c e o hg hidle hint v l l
         simp [tstep, h, hd, hv, hsh]
     | none =>
       cases hi : c.idle with
@@ -167,21 +239,22 @@ theorem settles_post (hpos : ∀ d, c.idle = some d → 0 < d) (l : TLoc) (h : l
       | some idle =>
         apply settles_cont (l' := { l with pc := .idleLoop })
         · simp [tstep, h, hd, hv, hi]
-        · apply settles_idleLoop c e o hpos _ rfl
-          simp only [spinning, h, hd, hv, hi] at hns ⊢
-          simpa using hns
+        · exact settles_idleLoop c e o hg hidle hint _ rfl
 
-/-- From every program point outside the spin set, at most 6 micro-steps to a suspension or return. -/
-theorem settles_all (hpos : ∀ d, c.idle = some d → 0 < d) (l : TLoc) (hns : spinning c e l = false) :
-    settles c e o 6 l = true := by
+/-- From every program point: at most 10 micro-steps to a suspension or a return. -/
+theorem settles_all (l : TLoc) : settles c e o 10 l = true := by
   cases hpc : l.pc with
-  | init => exact settles_le c e o (k := 5) (by omega) l (settles_init c e o l hpc)
-  | head => exact settles_le c e o (k := 4) (by omega) l (settles_head c e o l hpc)
-  | idleHead => exact settles_le c e o (k := 3) (by omega) l (settles_idleHead c e o l hpc)
-  | idleDone => exact settles_le c e o (k := 2) (by omega) l (settles_idleDone c e o l hpc)
-  | invoke => exact settles_le c e o (k := 1) (by omega) l (settles_invoke c e o l hpc)
-  | post => exact settles_post c e o hpos l hpc hns
-  | idleLoop => exact settles_le c e o (k := 5) (by omega) l (settles_idleLoop c e o hpos l hpc hns)
+  | init => exact settles_le c e o (k := 9) (by omega) l (settles_init c e o hg hidle hint l hpc)
+  | head => exact settles_le c e o (k := 8) (by omega) l (settles_head c e o hg hidle hint l hpc)
+  | idleHead => exact settles_le c e o (k := 7) (by omega) l (settles_idleHead c e o hg hidle hint l hpc)
+  | idleDone => exact settles_le c e o (k := 6) (by omega) l (settles_idleDone c e o hg hidle hint l hpc)
+  | invoke => exact settles_le c e o (k := 5) (by omega) l (settles_invoke c e o hg hidle hint l hpc)
+  | post => exact settles_post c e o hg hidle hint l hpc
+  | idleLoop => exact settles_le c e o (k := 9) (by omega) l (settles_idleLoop c e o hg hidle hint l hpc)
+
+end
+
+/-! ### HISTORICAL: the unguarded loop (before /repo 6ccf081) -/
 
 /-- In the spin set every step stays in the spin set without suspending. -/
 theorem spinning_step (l : TLoc) (hs : spinning c e l = true) :
